@@ -302,6 +302,13 @@ def make_array_own(name, consts):
     fns.append(Fn("array_copy_ctor", ARRAYB, ["struct array", "struct owning_data_t"], "owning_data_t",
                   params_hint=r"^\s*const\s+owning_data_t\s*&", ret="void", ptypes=["const ARRAY_OWN_T *"], ctor=True,
                   method="ARRAY_OWN_T *self", members=["m_size", "m_ptr"], refparams=["o"], subst=OWN_SUBST))
+    ctor_subst = OWN_SUBST + [(r"std::move\s*\(\s*ptr\s*\)", "verif_unique_ptr_take(ptr)", 0, True)]
+    fns.append(Fn("array_default_ctor", ARRAYB, ["struct array", "struct owning_data_t"], "owning_data_t", params_hint=r"^\s*$",
+                  ret="void", ptypes=[], ctor=True, method="ARRAY_OWN_T *self", members=["m_size", "m_ptr"], subst=ctor_subst))
+    fns.append(Fn("array_size_ctor", ARRAYB, ["struct array", "struct owning_data_t"], "owning_data_t", params_hint=r"^\s*std::size_t\s+n\s*$",
+                  ret="void", ptypes=["size_t"], ctor=True, method="ARRAY_OWN_T *self", members=["m_size", "m_ptr"], subst=ctor_subst))
+    fns.append(Fn("array_adopt_ctor", ARRAYB, ["struct array", "struct owning_data_t"], "owning_data_t", params_hint=r"unique_ptr",
+                  ret="void", ptypes=["size_t", "OUT_VEC_T **"], ctor=True, method="ARRAY_OWN_T *self", members=["m_size", "m_ptr"], subst=ctor_subst))
     return Unit(name, fns, "contracts/array_own.h", "lemmas/array_own.c")
 
 
